@@ -9,6 +9,7 @@ import GrinVerif.Model.ChainStatus
 import GrinVerif.Model.ChainOrphans
 import GrinVerif.Model.ChainReset
 import GrinVerif.Model.ChainKnown
+import GrinVerif.Model.ChainSizes
 /-! Driver glue for the `chain` domain: block tree definitions shared by all subject chains,
 one model `Node` per subject. -/
 namespace GV.Drv.ChainD
@@ -25,6 +26,8 @@ structure St where
   told : List (String × String) := []
   /-- per subject: the bounded orphan pool (`Model/ChainOrphans.lean`) -/
   pools : List (String × OPool) := []
+  /-- leaf counts claimed by the header of every block described so far -/
+  sizes : SizeClaims := []
   /-- per subject: `Chain::denylist` (in memory: a restart forgets it) -/
   deny : List (String × List Nat) := []
   /-- per subject: the options every parked orphan was last offered with (`Orphan.opts`) -/
@@ -202,7 +205,14 @@ def handle (st : St) (args : List String) (impl : String) : St × Verdict :=
     | _, _, _ => (st, .unknown)
   | "blk" :: b :: rest =>
     match parseBlk b rest, parseClaims rest with
-    | some blk, some inf => ({ st with blks := st.blks ++ [(blk.withInputFeatures st.outs inf).withNrdDupCheck] }, .ok)
+    | some blk, some inf =>
+      let blk1 := (blk.withInputFeatures st.outs inf).withNrdDupCheck
+      -- `osz=` / `ksz=`: the leaf counts the header claims (Model/ChainSizes.lean)
+      match (kv rest "osz").bind String.toNat?, (kv rest "ksz").bind String.toNat? with
+      | some co, some ck =>
+        ({ st with blks := st.blks ++ [blk1.withSizeCheck st.blks st.sizes co ck],
+                   sizes := (blk.id, co, ck) :: st.sizes }, .ok)
+      | _, _ => ({ st with blks := st.blks ++ [blk1] }, .ok)
     | _, _ => (st, .unknown)
   | ["new", s] =>
     let S0 := match st.blks.find? (·.id == 0) with
@@ -332,7 +342,7 @@ def handle (st : St) (args : List String) (impl : String) : St × Verdict :=
   | ["hrange", s, a, b] =>
     match getNode st s, a.toNat?, parseOptNat b with
     | some n, some a, some b =>
-      let m := match heightRangeToPmmr n a b with
+      let m := match heightRangeToPmmr n a b (fun id => (st.sizes.find? (·.1 == id)).map (·.2.1)) with
         | .ok (x, y) => s!"{x},{y}"
         | .error e => s!"err:{e}"
       (st, cmpModel m impl)
